@@ -408,6 +408,86 @@ fn project_case_in(ctx: &Ctx, p: &GenProject, rec: &Rec, dir: &Path, with_binary
     Ok(())
 }
 
+/// A definition of one named file copied to the end of another named file: the duplicate-definition
+/// error is the one diagnostic that talks about two files, so each of its labels must name the
+/// right file and cover one of the two definitions.
+fn duplicate_case(ctx: &Ctx, tape: &[u8], rec: &Rec) -> Verdict {
+    let mut t = Tape::new(tape);
+    let mut p = gen_project(&mut t, ProjOpts { max_files: 3, comments: true, main_component: false, clean: true, ..ProjOpts::default() });
+    if p.files.len() < 2 {
+        rec.class("duplicate_projects_single_file_skipped");
+        return Ok(());
+    }
+    let i = t.below(p.files.len());
+    let j = (i + 1 + t.below(p.files.len() - 1)) % p.files.len();
+    let k = t.below(p.files[i].ast.defs.len());
+    let def_id = p.files[i].ast.defs[k].id;
+    let Some((a, b)) = p.files[i].r.span(def_id) else { return Ok(()) };
+    let name = p.files[i].ast.defs[k].name.clone();
+    let text = p.files[i].r.src[a..b].to_string();
+    let sep = if t.chance(128) { "\n// é 日本\n" } else { "\n" };
+    let at = p.files[j].r.src.len() + sep.len();
+    p.files[j].r.src = format!("{}{sep}{text}\n", p.files[j].r.src);
+    p.named = (0..p.files.len()).collect();
+    if t.chance(128) {
+        p.named.reverse();
+    }
+    let dir = scratch(ctx, "c04d");
+    let res = (|| -> Verdict {
+        let named = p.write(&dir).map_err(|e| Bad::new(format!("INFRA write: {e}")))?;
+        let reference = match reference(&named, &[], &program_structure::constants::Curve::Bn254) {
+            Ok(r) => r,
+            Err(_) => {
+                rec.class("reference_panicked_skipped");
+                return Ok(());
+            }
+        };
+        rec.class("duplicate_projects");
+        let canon = |rel: &str| std::fs::canonicalize(dir.join(rel)).map(|c| c.display().to_string()).unwrap_or_default();
+        let blank_i = blank_bytes(&p.files[i].r.src);
+        let blank_j = blank_bytes(&p.files[j].r.src);
+        let allowed = [(canon(&p.files[i].rel), trim_end(&blank_i, (a, b))), (canon(&p.files[j].rel), trim_end(&blank_j, (at, at + text.len())))];
+        let mut seen = false;
+        for r in &reference.reports {
+            check_report(r, &reference.files, None, rec)?;
+            if r.message().contains("Duplicated") || r.id() == "T2008" {
+                seen = true;
+                rec.nontrivial(fnv(p.describe().as_bytes()));
+                for l in r.primary().iter().chain(r.secondary().iter()) {
+                    let Ok(file) = reference.files.to_storage().get(l.file_id) else { continue };
+                    let blank = if *file.name() == allowed[0].0 { &blank_i } else { &blank_j };
+                    let span = trim_end(blank, (l.range.start, l.range.end));
+                    if !allowed.iter().any(|(f, sp)| *f == *file.name() && *sp == span) {
+                        return Err(Bad::new(format!(
+                            "[{}] `{}`: a label covers {}:{}..{} (`{}`), which is neither of the two definitions of `{name}` ({}:{:?} and {}:{:?})",
+                            r.id(),
+                            r.message(),
+                            file.name(),
+                            l.range.start,
+                            l.range.end,
+                            file.source().get(l.range.start..l.range.end.min(file.source().len())).unwrap_or("?").chars().take(60).collect::<String>(),
+                            allowed[0].0,
+                            allowed[0].1,
+                            allowed[1].0,
+                            allowed[1].1
+                        ))
+                        .sig("C04:duplicate-definition-label"));
+                    }
+                }
+            }
+        }
+        if seen {
+            rec.class("duplicate_definition_errors_checked");
+        }
+        // (which of the two definitions is analysed further is not determined, so the displayed
+        // findings of the binary are not compared here)
+        Ok(())
+    })()
+    .map_err(|b| if b.rendered.is_empty() { b.rendered(p.describe()) } else { b });
+    let _ = std::fs::remove_dir_all(&dir);
+    res
+}
+
 /// Inputs that end in lexical / syntax errors or unterminated comments, with non-ASCII text before.
 fn error_case(ctx: &Ctx, tape: &[u8], rec: &Rec) -> Verdict {
     let mut t = Tape::new(tape);
@@ -496,6 +576,7 @@ pub fn replay(ctx: &Ctx, check: &str, tape: &[u8]) -> Verdict {
         "labels" => project_case(ctx, tape, &rec, false),
         "labels_binary" => project_case(ctx, tape, &rec, true),
         "error_inputs" => error_case(ctx, tape, &rec),
+        "duplicate_definitions" => duplicate_case(ctx, tape, &rec),
         _ => Err(Bad::new(format!("unknown check {check}"))),
     }
 }
@@ -514,6 +595,8 @@ pub fn run(ctx: &Ctx) -> i32 {
     let fails = run_tapes_opts(ctx, "labels_binary", ctx.tier.pick(400, 8_000), 3000, 200, &stats, |tape, rec| project_case(ctx, tape, rec, true));
     outcome.absorb(&known, fails);
     let fails = run_tapes_opts(ctx, "error_inputs", ctx.tier.pick(1_000, 20_000), 3000, 300, &stats, |tape, rec| error_case(ctx, tape, rec));
+    outcome.absorb(&known, fails);
+    let fails = run_tapes_opts(ctx, "duplicate_definitions", ctx.tier.pick(400, 8_000), 3000, 200, &stats, |tape, rec| duplicate_case(ctx, tape, rec));
     outcome.absorb(&known, fails);
     let _ = blank_comments;
     finish(
